@@ -400,7 +400,13 @@ B1 == M(<<
            M(<< <<"name", S("Script")>>, <<"run", S("echo ${{ github.sha }}")>>, <<"shell", S("bash")>>,
                 <<"working-directory", S("build")>> >>),
            M(<< <<"uses", S("docker://alpine:3.8")>>,
-                <<"with", M(<< <<"entrypoint", S("/bin/echo")>>, <<"args", S("hello")>> >>)>> >>) >>)>> >>)>> >>)>> >>)
+                <<"with", M(<< <<"entrypoint", S("/bin/echo")>>, <<"args", S("hello")>> >>)>> >>),
+           \* the kind of the step (popular action above, github-script, local action, docker) is a sibling configuration
+           M(<< <<"uses", S("actions/github-script@v7")>>,
+                <<"with", M(<< <<"script", S("return 1")>>, <<"github-token", E("github.token")>>,
+                               <<"result-encoding", S("string")>> >>)>> >>),
+           M(<< <<"uses", S("./.github/actions/local")>>,
+                <<"with", M(<< <<"first", S("a")>>, <<"second", S("b")>> >>)>> >>) >>)>> >>)>> >>)>> >>)
 
 \* B2: reusable workflow (callee interface) + caller jobs
 CallUses == "octo/repo/.github/workflows/build.yml@v1"
@@ -462,7 +468,11 @@ B3 == M(<<
            <<"matrix", M(<<
               <<"os", E(AnyArr)>>,
               <<"ver", Q(<<S("1"), Q(<<S("2"), S("3")>>)>>)>>,
-              <<"include", Q(<< E(AnyObj), M(<< <<"os", S("linux")>>, <<"extra", M(<< <<"deep", S("v")>> >>)>> >>) >>)>>,
+              \* nested values with an expression (type any) BEFORE literal siblings
+              <<"mix", Q(<< E("fromJSON('1')"), S("lit"), Q(<<E("fromJSON('2')"), S("n2"), S("n3")>>),
+                            M(<< <<"k", E("fromJSON('3')")>>, <<"l", S("m2")>> >>) >>)>>,
+              <<"include", Q(<< E(AnyObj), M(<< <<"os", S("linux")>>, <<"extra", M(<< <<"deep", S("v")>> >>)>>,
+                                                <<"lst", Q(<<E("fromJSON('4')"), S("i2")>>)>> >>) >>)>>,
               <<"exclude", Q(<< E(AnyObj), M(<< <<"ver", S("1")>> >>) >>)>> >>)>> >>)>>,
         <<"container", FullContainer("node:18")>>,
         <<"services", M(<< <<"db", FullContainer("postgres:15")>>, <<"cache", S("redis:7")>>,
